@@ -577,6 +577,9 @@ func (c *Ctx) MapFat() *Doc {
 			c.discriminated[name] = true
 			one.OneOf = append(one.OneOf, &Schema{Ref: RefSchemas + name})
 			one.Discriminator.Mapping[c.PlainName("m", "fatmap")] = RefSchemas + name
+			if rapid.Bool().Draw(t, "identity_mapping") {
+				one.Discriminator.Mapping[name] = RefSchemas + name // the key repeats the schema name
+			}
 			if rapid.Bool().Draw(t, "second_mapping") {
 				one.Discriminator.Mapping[c.PlainName("n", "fatmap2")] = name
 			}
@@ -897,7 +900,7 @@ func (c *Ctx) SecurityDoc(kinds []string) *Doc {
 	default:
 		c.Tag("global:none")
 	}
-	reqs := []string{"inherit", "public", "A", "B", "A|B", "A&B"}
+	reqs := []string{"inherit", "public", "A", "B", "A|B", "B|A", "A&B"}
 	mk := func(kind string) *Operation {
 		op := MinimalOp()
 		switch kind {
@@ -909,6 +912,8 @@ func (c *Ctx) SecurityDoc(kinds []string) *Doc {
 			op.Security = &[]map[string][]string{{b: {}}}
 		case "A|B":
 			op.Security = &[]map[string][]string{{a: {}}, {b: {}}}
+		case "B|A":
+			op.Security = &[]map[string][]string{{b: {}}, {a: {}}}
 		case "A&B":
 			op.Security = &[]map[string][]string{{a: {}, b: {}}}
 		}
